@@ -30,6 +30,19 @@ def fitinfo_mutators(ctx):
             if cn.startswith(me + '.') and cn.split('.')[-1] in ('sort', 'fill', 'resize', 'put', 'itemset', 'partition') and cn.count('.') >= 2:
                 inplace.append((fi, c))
                 muts.setdefault(name, []).append(up(c))
+    # in-place stores that reach the arrays held by the record through local aliases (E6, field-sensitive)
+    from ..effects import Effects
+    E = Effects(ctx.repo)
+    for name, fi in ci.methods.items():
+        if name in ('__init__', '__setstate__'):
+            continue
+        me = fi.params[0] if fi.params else 'self'
+        summ = E.summary(fi)
+        for f, sites in summ.deep.get(me, {}).items():
+            for node, txt in sites:
+                if not any(st is node for _, st in inplace):
+                    inplace.append((fi, node))
+                    muts.setdefault(name, []).append(txt)
     return muts, inplace
 
 
